@@ -68,8 +68,9 @@ def generate(rng, tier):
     # --- CTR / BelT: core block-wise = wrapper byte-wise ---
     seek = stream_cfgs_for(lambda k: k != "ofb")
     for i in range(n):
-        bs, w, dm, kind = seek[i % len(seek)] if i < len(seek) else rng.choice(seek)
-        key, iv = rbytes_n(rng, 8), boundary_iv(rng, bs, kind)
+        bs, w, dm, kind = pick_stream(rng, i, lambda k: k != "ofb")
+        key = rbytes_n(rng, 8)
+        iv = stream_iv(rng, bs, kind, key, dm)
         nb = max(0, rng.choice([1, w, w + 1, 2 * w + 1, rng.randint(0, 3 * w)]))
         msg = rbytes_n(rng, nb * bs)
         c = Case("c14_c%d" % i, "stream", bs, w, dm, tags=dict(pair="core-vs-wrapper", kind=kind))
